@@ -90,6 +90,12 @@ def alStep (N : Nat) (w0 : ALW) (o : List String) : ALW × String :=
   | ["push", x] => match int? x with
     | some x => done { w with s := run (.push x) } "-"
     | none => skip
+  | ["pushn", k, x] => match nat? k, int? x with     -- k appends in a row: x, x+1, …
+    | some k, some x =>
+      if 1 ≤ k && k ≤ 300 then
+        done { w with s := (List.range k).foldl (fun s (i : Nat) => AL.step N 0 s (.push (x + Int.ofNat i))) w.s } "-"
+      else skip
+    | _, _ => skip
   | ["erase", k] => match nat? k with
     | some k =>
       if (AL.Op.erase k : AL.Op Int).ok w.s then
@@ -258,7 +264,7 @@ def bvStep (B : Nat) (v : BV.Bits) (o : List String) : BV.Bits × String :=
   | ["resize", n, b] => match cnt n 64, flag? b with | some n, some b => doOp (.resize n b) | _, _ => skip
   | ["fromv", x] => match x.toList with
     | 'b' :: cs =>
-      if cs.length ≤ 300 && cs.all (fun c => c == '0' || c == '1') then
+      if cs.length ≤ 700 && cs.all (fun c => c == '0' || c == '1') then
         match BV.ofVector B (cs.map (· == '1')) with
         | some v' => fin v'
         | none => fin v "ERR:Range"
@@ -282,14 +288,14 @@ def bvStep (B : Nat) (v : BV.Bits) (o : List String) : BV.Bits × String :=
   | ["andr", i, k] => match blk i, blk k with | some i, some k => doOp (.andBits i (BV.getRepr B v k)) | _, _ => skip
   | ["orr", i, k] => match blk i, blk k with | some i, some k => doOp (.orBits i (BV.getRepr B v k)) | _, _ => skip
   | ["xorr", i, k] => match blk i, blk k with | some i, some k => doOp (.xorBits i (BV.getRepr B v k)) | _, _ => skip
-  | ["shl", i, n] => match blk i, cnt n 200 with | some i, some n => doOp (.shl i n) | _, _ => skip
-  | ["shr", i, n] => match blk i, cnt n 200 with | some i, some n => doOp (.shr i n) | _, _ => skip
+  | ["shl", i, n] => match blk i, cnt n 400 with | some i, some n => doOp (.shl i n) | _, _ => skip
+  | ["shr", i, n] => match blk i, cnt n 400 with | some i, some n => doOp (.shr i n) | _, _ => skip
   | ["q", i] => match blk i with
     | some i => fin v s!"{BV.countBlock B v i}{tf (BV.anyBlock B v i)}{tf (BV.noneBlock B v i)}{tf (BV.allBlock B v i)}"
     | none => skip
   | ["not", i] => match blk i with | some i => fin v (bitsStr (BV.bNot (BV.getRepr B v i))) | none => skip
-  | ["shlq", i, n] => match blk i, cnt n 200 with | some i, some n => fin v (bitsStr (BV.bShl (BV.getRepr B v i) n)) | _, _ => skip
-  | ["shrq", i, n] => match blk i, cnt n 200 with | some i, some n => fin v (bitsStr (BV.bShr (BV.getRepr B v i) n)) | _, _ => skip
+  | ["shlq", i, n] => match blk i, cnt n 400 with | some i, some n => fin v (bitsStr (BV.bShl (BV.getRepr B v i) n)) | _, _ => skip
+  | ["shrq", i, n] => match blk i, cnt n 400 with | some i, some n => fin v (bitsStr (BV.bShr (BV.getRepr B v i) n)) | _, _ => skip
   | ["eqs", i, x] => match blk i, bits? B x with
     | some i, some x => let e := BV.equalsBits B v i x; fin v (tf e ++ tf (!e))
     | _, _ => skip
@@ -353,21 +359,27 @@ def lruStep (w0 : LRUW) (o : List String) : LRUW × String :=
   | ["sasg"] => fin (LRU.assign s none)            -- target = target
   | _ => skip
 
+/-- the build configuration token: a header may end in `rel` (release build of the headers, see the harness).  The
+    behaviour the property talks about does not depend on the configuration, so the token is validated and dropped. -/
+def dropCfg (head : List String) : List String :=
+  if head.length ≥ 2 && head.getLast? == some "rel" then head.dropLast else head
+
 def handle (line : String) : String :=
-  let (head, ops) := parseCase line
+  let (head0, ops) := parseCase line
+  let head := dropCfg head0
   match head with
   | ["al", p] => match int? p with
     | some p =>
-      if p == 0 || p == 1 || p == 2 || p == 3 || p == 4 || p == 7 then
+      if [0, 1, 2, 3, 4, 7, 8, 16, 100].contains p then
         runOps (alStep (AL.chunkSize p)) ⟨⟨AL.empty, []⟩, ⟨AL.empty, []⟩⟩ ops
       else "bad-op"
     | none => "bad-op"
   | ["sl"] => runOps slStep ⟨⟨SL.empty, none⟩, ⟨SL.empty, none⟩⟩ ops
   | ["rv", p] => match nat? p with
-    | some n => if n == 1 || n == 2 || n == 4 || n == 7 then runOps (rvStep n) ⟨RV.empty n 0, RV.empty n 0⟩ ops else "bad-op"
+    | some n => if [1, 2, 4, 7, 16, 65].contains n then runOps (rvStep n) ⟨RV.empty n 0, RV.empty n 0⟩ ops else "bad-op"
     | none => "bad-op"
   | ["bv", p] => match nat? p with
-    | some B => if B == 1 || B == 3 || B == 8 || B == 33 then runOps (bvStep B) [] ops else "bad-op"
+    | some B => if [1, 3, 8, 32, 33, 63, 64, 65, 100, 128, 129].contains B then runOps (bvStep B) [] ops else "bad-op"
     | none => "bad-op"
   | ["lru"] => runOps lruStep ⟨LRU.empty, LRU.empty⟩ ops
   | _ => "bad-op"
